@@ -70,4 +70,4 @@ package openapi3gen
 //@   ensures @C18 [bool-kind] old(plainScalar(g, t)) && kindOf(t) == reflect.Bool ==> (result.1 == nil) == boolSchema(result.0)
 //@   ensures @C18 [string-kind] old(plainScalar(g, t)) && kindOf(t) == reflect.String ==> (result.1 == nil) == stringSchema(result.0)
 //@   option safety-tags none
-//@   tag C18-attempted
+//@   tag C18
